@@ -139,33 +139,15 @@ def _resolve_concat(conc: Concat) -> Concat:
     if not len(conc.parts):
         raise RuntimeError("Concatenation with no parts")
 
-    if all(_flat_concatable(p) for p in conc.parts):
-        return Concat(*[_resolve_sliceable(p) for p in conc.parts])
-
-    if isinstance(conc.parts[0], Concat):
-        # Recursively cover the first element, and all others
-        first = _resolve_concat(conc.parts[0])
-        rest = _resolve_concat(Concat(*conc.parts[1:]))
-        return Concat(*(first.parts + rest.parts))
-
-    if isinstance(conc.parts[0], Slice):
-        # Resolve everything within the Slice to a list of concrete-Signal slices
-        first = _resolve_slice(conc.parts[0])
-        # Pass everything else recursively back to this method
-        rest = _resolve_concat(Concat(*conc.parts[1:]))
-        # And concatenate the two
-        return Concat(*(first + rest.parts))
-
-    # Otherwise peel off as many Signals and concrete-Signal Slices as we can
-    for idx in range(len(conc.parts)):
-        if _flat_concatable(conc.parts[idx]):
-            continue
-        # Hit our first "compound" entry. Split the list here.
-        first = conc.parts[:idx]
-        rest = _resolve_concat(Concat(*conc.parts[idx:]))
-        return Concat(*(first + rest.parts))
-
-    raise RuntimeError("Unable to resolve concatenation")
+    parts = []
+    for part in conc.parts:
+        # Each part resolves to a Signal, a concrete-Signal Slice, or a (flat) Concat thereof
+        resolved = _resolve_sliceable(part)
+        if isinstance(resolved, Concat):
+            parts.extend(resolved.parts)
+        else:
+            parts.append(resolved)
+    return Concat(*parts)
 
 
 def _resolve_ref(ref: Union[PortRef, BundleRef]) -> Sliceable:
